@@ -153,3 +153,23 @@ def gram(J):
 
 def ulp(dtype):
     return float(torch.finfo(dtype).eps) / 2
+
+
+def dependent_rows(rng, m, n):
+    """integer matrix of rank m-1 with an UNAMBIGUOUS rank: m-1 independent, reasonably conditioned integer rows and a
+    last row that is an integer combination of two of them (no duplicated rows).  All entries are small integers, so
+    the matrix and its Gramian are exact in float32/float64: the smallest singular value is 0 up to the SVD's own
+    backward error, 15 orders of magnitude below the others."""
+    import numpy as np
+    assert m >= 3 and n >= m - 1
+    while True:
+        rows = [[rng.randint(-6, 6) for _ in range(n)] for _ in range(m - 1)]
+        sv = np.linalg.svd(np.array(rows, dtype=float), compute_uv=False)
+        if sv[-1] > 0 and sv[0] / sv[-1] < 12:
+            break
+    a, b = rng.sample(range(m - 1), 2)
+    ca, cb = rng.choice([1, 1, 2, -1]), rng.choice([1, 1, -1, 2])
+    rows.append([ca * x + cb * y for x, y in zip(rows[a], rows[b])])
+    order = list(range(m))
+    rng.shuffle(order)
+    return [[Fr(v) for v in rows[i]] for i in order]
